@@ -224,8 +224,9 @@ func layOut(g orb.Geometry, mode string) (orb.Geometry, *guard) {
 
 // measured runs one measure on a freshly laid out copy of g and checks that the measure
 // left the whole backing memory alone and the value (within len) equal to the reference.
-func measured(g orb.Geometry, mode, name string, f func(orb.Geometry) float64) (float64, error) {
+func measured(g orb.Geometry, mode, name string, f func(orb.Geometry) float64, nz *noiser) (float64, error) {
 	laid, gd := layOut(g, mode)
+	nz.call()
 	v := f(laid)
 	if err := gd.check(name); err != nil {
 		return v, err
